@@ -288,6 +288,83 @@ func InlineTarget(call *ssa.Call) *ssa.Function {
 	return g
 }
 
+// valueTarget resolves a function-valued term to a function whose body may be spliced at a call through that
+// value: a function literal that only reads what it captures, a method value of a helper method, or a helper
+// function. For a method value the receiver binding is returned as well.
+func valueTarget(ft *Term) (g *ssa.Function, via *Term, recv *Term) {
+	for ft != nil && ft.Op == "conv" && len(ft.Args) == 1 {
+		ft = ft.Args[0]
+	}
+	if ft == nil {
+		return nil, nil, nil
+	}
+	switch ft.Op {
+	case "func":
+		f, _ := ft.Val.(*ssa.Function)
+		if f != nil && len(f.Blocks) > 0 && Inlineable(f) {
+			return f, ft, nil
+		}
+	case "closure":
+		if m := BoundMethod(ft); m != nil {
+			if len(m.Blocks) > 0 && Inlineable(m) && len(ft.Args) == 1 && len(m.Params) > 0 {
+				return m, ft, ft.Args[0]
+			}
+			return nil, nil, nil
+		}
+		mc, ok := ft.Val.(*ssa.MakeClosure)
+		if !ok {
+			return nil, nil, nil
+		}
+		f := mc.Fn.(*ssa.Function)
+		if len(f.Blocks) == 0 || f.Recover != nil || f.Synthetic != "" || !InModule(f) {
+			return nil, nil, nil
+		}
+		for k, fv := range f.FreeVars {
+			if k < len(mc.Bindings) {
+				if _, isCell := mc.Bindings[k].(*ssa.Alloc); isCell && mayWriteThrough(f, fv, 0) {
+					return nil, nil, nil
+				}
+			}
+		}
+		for _, b := range f.Blocks {
+			for _, in := range b.Instrs {
+				if _, isDefer := in.(*ssa.Defer); isDefer {
+					return nil, nil, nil
+				}
+			}
+		}
+		return f, ft, nil
+	}
+	return nil, nil, nil
+}
+
+// creatorPosition finds the activation with number inst among the frames that are still active (it then stands
+// at its pending call) or among those that returned (it then stands at its return).
+func creatorPosition(fr *frame, b *ssa.BasicBlock, i int, done []*Ctx, uid int) (*Ctx, *ssa.BasicBlock, int) {
+	if fr.ctx.uid == uid {
+		return fr.ctx, b, i
+	}
+	for x := fr; x.parent != nil; x = x.parent {
+		if x.parent.ctx.uid == uid {
+			return x.parent.ctx, x.contBlock, x.contIdx - 1
+		}
+	}
+	// the creator may be an activation outside this enumeration (the closure itself is being enumerated): the
+	// root's own outer context
+	for x := fr; x != nil; x = x.parent {
+		if x.parent == nil && x.ctx.outer != nil && x.ctx.outer.uid == uid {
+			return x.ctx.outer, x.ctx.outerB, x.ctx.outerI
+		}
+	}
+	for _, d := range done {
+		if d.uid == uid && len(d.seq) > 0 {
+			lb := d.seq[len(d.seq)-1]
+			return d, lb, len(lb.Instrs) - 1
+		}
+	}
+	return nil, nil, 0
+}
+
 // InlineClosures switches the splicing of directly called local closures (see closureTarget).
 var InlineClosures = true
 
@@ -393,10 +470,14 @@ type Ctx struct {
 	outerB  *ssa.BasicBlock
 	outerI  int
 	fvCells map[*ssa.FreeVar]*ssa.Alloc
+	uid     int // unique per activation, across enumerations
 }
 
+var ctxCounter int
+
 func newCtx(fi *FuncInfo) *Ctx {
-	return &Ctx{fi: fi, pred: map[*ssa.BasicBlock]*ssa.BasicBlock{}, pos: map[*ssa.BasicBlock]int{}, memo: map[ssa.Value]*Term{}}
+	ctxCounter++
+	return &Ctx{fi: fi, pred: map[*ssa.BasicBlock]*ssa.BasicBlock{}, pos: map[*ssa.BasicBlock]int{}, memo: map[ssa.Value]*Term{}, uid: ctxCounter}
 }
 
 func (c *Ctx) clone() *Ctx {
@@ -413,6 +494,7 @@ func (c *Ctx) clone() *Ctx {
 	}
 	n.bind, n.tag, n.inst, n.tsub = c.bind, c.tag, c.inst, c.tsub
 	n.outer, n.outerB, n.outerI, n.fvCells = c.outer, c.outerB, c.outerI, c.fvCells
+	n.uid = c.uid
 	return n
 }
 
@@ -613,7 +695,7 @@ func (c *Ctx) term1(v ssa.Value) *Term {
 	case *ssa.TypeAssert:
 		return mk("typeassert", c.typeName(v.AssertedType), v, c.term(v.X))
 	case *ssa.Slice:
-		if a, ok := v.X.(*ssa.Alloc); ok && a.Comment == "varargs" && !c.detached {
+		if a, ok := v.X.(*ssa.Alloc); ok && (a.Comment == "varargs" || a.Comment == "slicelit" && v.Low == nil && v.High == nil) && !c.detached {
 			if vt := c.varargs(v, a); vt != nil {
 				return vt
 			}
@@ -630,7 +712,9 @@ func (c *Ctx) term1(v ssa.Value) *Term {
 		for i, b := range v.Bindings {
 			args[i] = c.term(b)
 		}
-		return mk("closure", FuncName(v.Fn.(*ssa.Function)), v, args...)
+		ct := mk("closure", FuncName(v.Fn.(*ssa.Function)), v, args...)
+		ct.Env = c
+		return ct
 	case *ssa.Range:
 		return mk("range", "", v, c.term(v.X))
 	case *ssa.Next:
@@ -843,6 +927,21 @@ func (c *Ctx) loadTerm(v *ssa.UnOp) *Term {
 			}
 		}
 	}
+	if a, ok := v.X.(*ssa.Alloc); ok && !c.detached {
+		if stt, isStruct := a.Type().Underlying().(*types.Pointer).Elem().Underlying().(*types.Struct); isStruct && stt.NumFields() > 0 {
+			lb := v.Block()
+			end := len(lb.Instrs)
+			for k, in := range lb.Instrs {
+				if in == ssa.Instruction(v) {
+					end = k
+					break
+				}
+			}
+			if st := c.structValueAt(lb, end, a, v); st != nil {
+				return st
+			}
+		}
+	}
 	addr := c.term(v.X)
 	if root := allocRoot(v.X); root != nil && !c.detached {
 		if st := c.lastStore(v, addr.String(), root); st != nil {
@@ -859,6 +958,114 @@ func (c *Ctx) loadTerm(v *ssa.UnOp) *Term {
 		}
 	}
 	return mk("load", "", v, addr)
+}
+
+// structValueAt assembles the value a local struct cell holds before instruction end of block lb: per field the
+// latest store into that field, or the field of the latest value stored into the whole cell, or the zero value
+// when the cell was not written since its allocation. nil when nothing is known (a loop or a call may have
+// written the cell).
+func (c *Ctx) structValueAt(lb *ssa.BasicBlock, end0 int, a *ssa.Alloc, at ssa.Value) *Term {
+	stt := a.Type().Underlying().(*types.Pointer).Elem().Underlying().(*types.Struct)
+	bi, ok := c.pos[lb]
+	if !ok {
+		return nil
+	}
+	n := stt.NumFields()
+	vals := make([]*Term, n)
+	left := n
+	var whole *Term
+	opaque := false
+	sawAlloc := false
+scan:
+	for i := bi; i >= 0 && left > 0; i-- {
+		b := c.seq[i]
+		if i < bi {
+			nb := c.seq[i+1]
+			if l := c.fi.header[nb]; l != nil && !l.Body[b] && loopStoresTo(l, a) {
+				opaque = true
+				break
+			}
+		}
+		instrs := b.Instrs
+		end := len(instrs)
+		if i == bi {
+			end = end0
+		}
+		for k := end - 1; k >= 0; k-- {
+			switch in := instrs[k].(type) {
+			case *ssa.Alloc:
+				if in == a {
+					sawAlloc = true
+					break scan
+				}
+			case *ssa.Store:
+				if in.Addr == ssa.Value(a) {
+					whole = c.term(in.Val)
+					break scan
+				}
+				if fa, ok := in.Addr.(*ssa.FieldAddr); ok && fa.X == ssa.Value(a) && vals[fa.Field] == nil {
+					vals[fa.Field] = c.term(in.Val)
+					left--
+				} else if allocRoot(in.Addr) == a && !ok {
+					opaque = true // an element / nested field is written: not modelled
+					break scan
+				}
+			case ssa.CallInstruction:
+				if callTakes(in, a) {
+					if _, isDefer := in.(*ssa.Defer); !isDefer {
+						opaque = true
+						break scan
+					}
+				}
+			case *ssa.RunDefers:
+				if deferTakes(lb.Parent(), a) {
+					opaque = true
+					break scan
+				}
+			}
+		}
+	}
+	if left == n && whole == nil {
+		return nil // nothing known: leave the plain load
+	}
+	if left == n && whole != nil {
+		return whole // a plain copy
+	}
+	names := make([]string, n)
+	for i := 0; i < n; i++ {
+		names[i] = FieldName(stt.Field(i))
+		if vals[i] != nil {
+			continue
+		}
+		switch {
+		case whole != nil:
+			vals[i] = simplify(&Term{Op: "field", Name: names[i], Args: []*Term{whole}, Val: at})
+		case opaque || !sawAlloc && i >= 0 && false:
+			vals[i] = &Term{Op: "field", Name: names[i], Args: []*Term{mk("load", "", at, c.term(a))}, Val: at}
+		default:
+			vals[i] = zeroTerm(stt.Field(i).Type(), at)
+		}
+	}
+	return &Term{Op: "struct", Name: typeName(a.Type().Underlying().(*types.Pointer).Elem()), Args: vals, Names: names, Val: at}
+}
+
+// zeroTerm is the term of the zero value of a type.
+func zeroTerm(t types.Type, v ssa.Value) *Term {
+	switch u := t.Underlying().(type) {
+	case *types.Basic:
+		switch {
+		case u.Info()&types.IsBoolean != 0:
+			return mk("const", "false", v)
+		case u.Info()&types.IsString != 0:
+			return mk("const", `""`, v)
+		case u.Info()&types.IsNumeric != 0:
+			return mk("const", "0", v)
+		}
+	}
+	if isNilable(t) {
+		return mk("const", "nil", v)
+	}
+	return mk("const", "zero:"+Short(t.String()), v)
 }
 
 // varargs renders the implicit slice of a variadic call as the list of its stored elements.
@@ -1068,6 +1275,7 @@ type walkState struct {
 	steps  []step
 	done   []*Ctx // contexts of helper activations that already returned
 	ninst  int    // helper activations started so far
+	foreign []*Ctx // activations of the path a closure under enumeration was created on
 }
 
 func (st walkState) withStep(b *ssa.BasicBlock, from, to, inst int) walkState {
@@ -1080,7 +1288,54 @@ func (st walkState) withStep(b *ssa.BasicBlock, from, to, inst int) walkState {
 // Enumerate returns all acyclic paths of fn. Calls to Inlineable helpers are spliced in: their branch
 // facts, stores and results appear on the caller's path with parameters bound to the argument terms.
 // An error is returned when the cap is exceeded.
-func Enumerate(fn *ssa.Function) ([]*Path, error) {
+func Enumerate(fn *ssa.Function) ([]*Path, error) { return enumerate(fn, nil) }
+
+// EnumerateClosure enumerates the paths of the function a closure term denotes as it runs when called after
+// path p: its captured variables hold what the creating activation left in them, function values it captured
+// are known (calls through them are spliced), and all terms are in the vocabulary of p's root function. The
+// closure's own parameters are named in0, in1, ... to keep them apart from the creator's arg0, arg1, ...
+func EnumerateClosure(p *Path, ct *Term) ([]*Path, error) {
+	g, _ := FuncOfTerm(ct)
+	if g == nil || ct.Op != "closure" || BoundMethod(ct) != nil {
+		return nil, fmt.Errorf("not a function literal: %s", ct)
+	}
+	mc := ct.Val.(*ssa.MakeClosure)
+	root := newCtx(Info(g))
+	root.bind = map[ssa.Value]*Term{}
+	root.fvCells = map[*ssa.FreeVar]*ssa.Alloc{}
+	for k, prm := range g.Params {
+		root.bind[prm] = mk("param", fmt.Sprintf("in%d", k), prm)
+	}
+	if ct.Env != nil && p != nil {
+		var oc *Ctx
+		for _, cand := range p.byInst {
+			if cand.uid == ct.Env.uid {
+				oc = cand
+			}
+		}
+		if oc != nil && len(oc.seq) > 0 {
+			lb := oc.seq[len(oc.seq)-1]
+			root.outer, root.outerB, root.outerI = oc, lb, len(lb.Instrs)-1
+		}
+	}
+	for k, fv := range g.FreeVars {
+		if k < len(ct.Args) {
+			root.bind[fv] = ct.Args[k]
+			if cell, ok := mc.Bindings[k].(*ssa.Alloc); ok && root.outer != nil {
+				root.fvCells[fv] = cell
+			}
+		}
+	}
+	var foreign []*Ctx
+	if p != nil {
+		for _, c := range p.byInst {
+			foreign = append(foreign, c)
+		}
+	}
+	return enumerate(g, root, foreign...)
+}
+
+func enumerate(fn *ssa.Function, rootCtx *Ctx, foreign ...*Ctx) ([]*Path, error) {
 	if len(fn.Blocks) == 0 {
 		return nil, fmt.Errorf("%s has no body", FuncName(fn))
 	}
@@ -1149,6 +1404,19 @@ func Enumerate(fn *ssa.Function) ([]*Path, error) {
 			if g == nil {
 				g, mc = closureTarget(call, fr.fn)
 			}
+			// a call through a function value that the path knows: a closure created by an enclosing activation (and
+			// handed down as an argument or captured), a method value, a function passed as an argument
+			var viaTerm *Term
+			var recvBind *Term
+			if g == nil && InlineClosures && !call.Call.IsInvoke() {
+				switch call.Call.Value.(type) {
+				case *ssa.Function, *ssa.Builtin, *ssa.MakeClosure:
+				default:
+					if ft := fr.ctx.term(call.Call.Value); ft != nil {
+						g, viaTerm, recvBind = valueTarget(ft)
+					}
+				}
+			}
 			if g == nil || fr.depth >= MaxInlineDepth || fr.active(g) {
 				continue
 			}
@@ -1157,6 +1425,16 @@ func Enumerate(fn *ssa.Function) ([]*Path, error) {
 			if mc != nil {
 				child.ctx.outer, child.ctx.outerB, child.ctx.outerI = fr.ctx, b, i
 				child.ctx.fvCells = map[*ssa.FreeVar]*ssa.Alloc{}
+			}
+			if viaTerm != nil && viaTerm.Op == "closure" && recvBind == nil {
+				// reads of captured variables are resolved in the activation that created the closure, at the point
+				// where that activation stands now (its pending call), or where it ended
+				child.ctx.fvCells = map[*ssa.FreeVar]*ssa.Alloc{}
+				if viaTerm.Env != nil {
+					if oc, ob, oi := creatorPosition(fr, b, i, append(append([]*Ctx(nil), st.done...), st.foreign...), viaTerm.Env.uid); oc != nil {
+						child.ctx.outer, child.ctx.outerB, child.ctx.outerI = oc, ob, oi
+					}
+				}
 			}
 			st2.ninst++
 			child.ctx.inst = st2.ninst
@@ -1172,9 +1450,30 @@ func Enumerate(fn *ssa.Function) ([]*Path, error) {
 			}
 			child.ctx.tsub = typeBinding(call, g, fr.ctx.tsub)
 			child.ctx.bind = map[ssa.Value]*Term{}
-			for k, prm := range g.Params {
-				if k < len(call.Call.Args) {
-					child.ctx.bind[prm] = fr.ctx.term(call.Call.Args[k])
+			if recvBind != nil {
+				// method value: the receiver is the bound value, the call's arguments follow
+				child.ctx.bind[g.Params[0]] = recvBind
+				for k, prm := range g.Params[1:] {
+					if k < len(call.Call.Args) {
+						child.ctx.bind[prm] = fr.ctx.term(call.Call.Args[k])
+					}
+				}
+			} else {
+				for k, prm := range g.Params {
+					if k < len(call.Call.Args) {
+						child.ctx.bind[prm] = fr.ctx.term(call.Call.Args[k])
+					}
+				}
+			}
+			if viaTerm != nil && viaTerm.Op == "closure" && recvBind == nil {
+				vmc := viaTerm.Val.(*ssa.MakeClosure)
+				for k, fv := range g.FreeVars {
+					if k < len(viaTerm.Args) {
+						child.ctx.bind[fv] = viaTerm.Args[k]
+						if cell, ok := vmc.Bindings[k].(*ssa.Alloc); ok && child.ctx.outer != nil {
+							child.ctx.fvCells[fv] = cell
+						}
+					}
 				}
 			}
 			if mc != nil {
@@ -1246,7 +1545,10 @@ func Enumerate(fn *ssa.Function) ([]*Path, error) {
 			emit(fr, st, EndOther, nil, nil)
 		}
 	}
-	enter(&frame{fn: fn, ctx: newCtx(Info(fn))}, fn.Blocks[0], nil, walkState{})
+	if rootCtx == nil {
+		rootCtx = newCtx(Info(fn))
+	}
+	enter(&frame{fn: fn, ctx: rootCtx}, fn.Blocks[0], nil, walkState{foreign: foreign})
 	if err != nil {
 		return nil, err
 	}
@@ -1305,7 +1607,7 @@ func devirt(t *Term, dyn map[string]*Term) *Term {
 	}
 	n := t
 	if changed {
-		n = simplify(&Term{Op: t.Op, Name: t.Name, Args: args, Val: t.Val, Bind: t.Bind})
+		n = simplify(&Term{Op: t.Op, Name: t.Name, Args: args, Val: t.Val, Bind: t.Bind, Names: t.Names})
 	}
 	if n.Op != "invoke" || len(n.Args) != 1 {
 		return n
@@ -1796,9 +2098,21 @@ func (l *Loop) HeaderPhis() []*ssa.Phi {
 // the path into each of its fields.
 func (p *Path) FieldStores(cell ssa.Value) map[string]*Term {
 	out := map[string]*Term{}
-	p.Instrs(func(in ssa.Instruction) {
+	p.InstrsIn(func(in ssa.Instruction, c *Ctx) {
 		st, ok := in.(*ssa.Store)
 		if !ok {
+			return
+		}
+		if st.Addr == cell {
+			// the whole record is assigned: its fields are those of the value (a struct built by a helper, say)
+			if v := c.term(st.Val); v.Op == "struct" {
+				out = map[string]*Term{}
+				for i, n := range v.Names {
+					if a := v.Args[i]; !(a.Op == "const" && (a.Name == "nil" || a.Name == "0" || a.Name == `""` || a.Name == "false" || strings.HasPrefix(a.Name, "zero:"))) {
+						out[n] = a
+					}
+				}
+			}
 			return
 		}
 		fa, ok := st.Addr.(*ssa.FieldAddr)
@@ -1806,7 +2120,7 @@ func (p *Path) FieldStores(cell ssa.Value) map[string]*Term {
 			return
 		}
 		stt := fa.X.Type().Underlying().(*types.Pointer).Elem().Underlying().(*types.Struct)
-		out[FieldName(stt.Field(fa.Field))] = p.Term(st.Val)
+		out[FieldName(stt.Field(fa.Field))] = c.term(st.Val)
 	})
 	return out
 }
